@@ -144,7 +144,8 @@ def check(repo: Repo) -> Result:
     ob = [n for n in ast.walk(ast.Module(body=a.pre, type_ignores=[])) if isinstance(n, ast.If) and cnorm(n.test) in ("out.dtype.kind in ('u', 'i')", "out.dtype.kind in ('i', 'u')")]
     if len(ob) != 1:
         raise AnalysisError(f"{fn.where()}: integer out= promotion not found")
-    seq = canon_block(ob[0].body, keep=set(fn.params) | {"out", "np", "kwargs", "ufunc"})
+    # guards that only refuse (if ...: raise) do not take part in the promotion sequence
+    seq = canon_block([s_ for s_ in ob[0].body if not (isinstance(s_, ast.If) and not s_.orelse and s_.body and isinstance(s_.body[-1], ast.Raise))], keep=set(fn.params) | {"out", "np", "kwargs", "ufunc"})
     need = ["_L0 = out.astype('f' + str(out.dtype.itemsize))", "out.dtype = 'f' + str(out.dtype.itemsize)", "np.copyto(out, _L0)"]
     res.check(seq == need, "out-promotion", fn.where(ob[0]), "integer out= buffers are promoted value-preservingly to float of the same item size before NumPy writes into them: float copy taken first, buffer relabelled, values copied back (canonical form: locals naming pure expressions substituted, others renamed)", need, seq, rid=r1)
     # the view handed to NumPy is taken after the promotion
